@@ -543,6 +543,54 @@ def check_gzip(ck, LIVE, R="C04.decompressed-limit"):
     for st in q.walk_body(init.node):
         if isinstance(st, (ast.Assign, ast.AnnAssign)) and "self._decompressed_body_size" in q.assigned_paths(st):
             ck.ob(R, init, st, isinstance(st.value, ast.Constant) and st.value.value == 0, "the decompressed total starts at 0")
+    # finish(): whatever the decompressor still holds is either an error or goes through the same accounting
+    gfin = _F(ck, H1, "_GzipMessageDelegate.finish")
+    from ..x_absint import Obj as _Obj, UNK as _UNK
+    for start, tail_len, L in ((8, 4, 10), (2, 4, 10), (0, 11, 10), (10, 1, 10)):
+        fwd = []
+
+        def fb(st, c, d, args, tail_len=tail_len, fwd=fwd):
+            nm = q.call_attr(c)
+            if nm == "flush":
+                return b"t" * tail_len
+            if nm == "data_received":
+                a0 = args[0] if args else (list(st.last_kwargs.values())[0] if len(st.last_kwargs) == 1 else None)
+                me_ = st.env["self"]
+                me_.attrs["_forwarded"] = me_.attrs["_forwarded"] + [len(a0) if isinstance(a0, (bytes, bytearray)) else None]
+                return None
+            if nm == "finish" and d is not None and d.startswith("self."):
+                return None
+            return NotImplemented
+
+        ev = mk_evaluator(gfin)
+        ev.fallback = fb
+
+        def inline(d):
+            name = d.split(".")[1]
+            if name in ("data_received", "headers_received", "finish", "on_connection_close") or not ck.repo.has_func(H1, "_GzipMessageDelegate." + name):
+                return None
+            f_ = ck.repo.func(H1, "_GzipMessageDelegate." + name)
+            return None if isinstance(f_.node, ast.AsyncFunctionDef) else f_.node
+
+        ev.inline = inline
+        me = _Obj("self", _delegate=_Obj("inner"), _chunk_size=8, _decompressed_body_size=start, _decompressor=_Obj("decompressor"), _forwarded=[], _ml_args=[])
+        setup(form, L)(me, ev)
+        outs = ev.run(gfin.node, {"self": me})
+        if not outs:
+            raise AnalysisError("_GzipMessageDelegate.finish: no outcome")
+        for o in outs:
+            a = o.state.env["self"].attrs
+            fw = a["_forwarded"]
+            if None in fw:
+                raise AnalysisError("_GzipMessageDelegate.finish: forwarded data not decidable")
+            total = a.get("_decompressed_body_size", _UNK)
+            tag = "%d bytes left in the decompressor at finish(), %d inflated before, limit %d" % (tail_len, start, L)
+            if not fw:
+                ck.ob(R, gfin, gfin.node, True, "nothing is handed to the delegate outside the size accounting [%s: %s]" % (tag, "raise " + str(o.value) if o.kind == "raise" else "dropped"), construct="gzip finish tail %d/%d/%d" % (start, tail_len, L))
+                continue
+            ok = sum(fw) == tail_len and total is not _UNK and total == start + tail_len and start + tail_len <= L
+            ck.ob(R, gfin, gfin.node, ok, "every byte handed to the delegate passes the size accounting, also a tail delivered by finish() [%s: forwarded %s, total %r]" % (tag, fw, total), construct="gzip finish tail %d/%d/%d" % (start, tail_len, L))
+
     # who may reset the running total: nothing that runs while body data is being received
     methods = {f.name: f for f in ck.repo.direct_methods(H1, "_GzipMessageDelegate")}
     calls = {nm: {q.dotted(c.func).split(".")[1] for c in q.calls(f.node) if (q.dotted(c.func) or "").startswith("self.") and (q.dotted(c.func) or "").count(".") == 1} for nm, f in methods.items()}
@@ -841,6 +889,8 @@ MUTANTS = [
     ("chunked: total check removed", _m(H1, RCB, remove_stmts(_if_raise("total_size"))), "C04.chunked-total-limit"),
     ("chunked: total compared with max_buffer_size", _m(H1, RCB, replace_expr(lambda n: isinstance(n, ast.Attribute) and _u(n) == "self._max_body_size", lambda n: parse_expr("self.stream.max_buffer_size"))), "C04.chunked-total-limit"),
     ("chunked: running total reset for every chunk", _m(H1, RCB, replace_stmt(lambda st: isinstance(st, ast.Assign) and _u(st) == "bytes_to_read = chunk_len", lambda st: [st, parse_stmt("total_size = 0")])), "C04.chunked-total-limit"),
+    ("seeded C04-adv6: finish() forwards the decompressor's tail to the delegate uncounted", _m(H1, "_GzipMessageDelegate.finish", replace_stmt(lambda st: isinstance(st, ast.Raise) and "flush" in _u(st), lambda st: [parse_stmt("self._delegate.data_received(tail)")])), "C04.decompressed-limit"),
+    ("finish() counts the tail but forwards it before comparing with the limit", _m(H1, "_GzipMessageDelegate.finish", replace_stmt(lambda st: isinstance(st, ast.Raise) and "flush" in _u(st), lambda st: [parse_stmt("self._decompressed_body_size += len(tail)"), parse_stmt("self._delegate.data_received(tail)")])), "C04.decompressed-limit"),
     ("gzip: size check removed", _m(H1, GZ, remove_stmts(_if_raise("_decompressed_body_size"))), "C04.decompressed-limit"),
     ("gzip: size check after forwarding", _m(H1, GZ, _move_gzip_check_after_forward), "C04.decompressed-limit"),
     ("gzip: decompress without max_length", _m(H1, GZ, replace_expr(lambda n: isinstance(n, ast.Call) and q.call_attr(n) == "decompress", lambda n: ast.Call(func=n.func, args=n.args[:1], keywords=[]))), "C04.decompressed-limit"),
